@@ -861,7 +861,12 @@ def oracle_interp(ops, impl):
                     if tot > 0:
                         ex = sum(c[k] / tot * Fr(f[k]) for k in range(np_))
                         mag = sum(float(c[k] / tot) * abs(f[k]) for k in range(np_))
-                        if abs(Fr(v) - ex) > 16 * EPS * mag + 1e-300:
+                        # gradual underflow: a clipped, renormalised weight below the smallest normal double (2^-1022) is
+                        # stored with an ABSOLUTE error of up to one denormal spacing (2^-1074) -- it may underflow to 0
+                        # legitimately -- and that error is multiplied by |f_k| (e.g. w = 1e-366 -> 0, f = 1e300: the exact
+                        # term 4.75e-66 is lost); a product w_k f_k can underflow by the same amount once more
+                        under = float(Fr(2) ** -1074 * (sum(Fr(abs(f[k])) for k in range(np_)) + np_))
+                        if abs(Fr(v) - ex) > 16 * EPS * mag + 1e-300 + under:
                             bad.append((i, 'interpolated value %r is not sum clip(w)_i f_i = %r' % (v, float(ex))))
                 # unit weight reproduces the donor value
                 for k in range(np_):
